@@ -1,0 +1,220 @@
+//! Process-global trace sink for the verification harness (compiled only with `--cfg salsa_verif`).
+//!
+//! Every hook appends one text line (space separated tokens) to a global buffer while tracing is
+//! enabled. The sink deliberately uses `std::sync` primitives (never `crate::sync`), so that it
+//! adds no scheduling points under the `shuttle` feature; the critical sections below never block
+//! on anything but the sink's own short mutex.
+//!
+//! Line formats are documented in `/verif/harness/TRACE_FORMAT.md`.
+
+use std::fmt;
+use std::sync::Mutex;
+use std::sync::atomic::{AtomicBool, AtomicU64, Ordering};
+
+use crate::key::DatabaseKeyIndex;
+use crate::sync::thread::{self, ThreadId};
+
+static ENABLED: AtomicBool = AtomicBool::new(false);
+static YIELD_STATE: AtomicU64 = AtomicU64::new(0);
+static HANDLE_IDS: AtomicU64 = AtomicU64::new(0);
+
+struct Sink {
+    lines: Vec<String>,
+    threads: Vec<ThreadId>,
+    /// live memo allocations: address -> allocation ordinal
+    memos: Option<std::collections::HashMap<usize, u64>>,
+    next_memo: u64,
+}
+
+static SINK: Mutex<Sink> = Mutex::new(Sink {
+    lines: Vec::new(),
+    threads: Vec::new(),
+    memos: None,
+    next_memo: 0,
+});
+
+fn sink() -> std::sync::MutexGuard<'static, Sink> {
+    SINK.lock().unwrap_or_else(|e| e.into_inner())
+}
+
+/// Start tracing; clears the buffer and all ordinal maps (threads, memo allocations).
+pub fn enable() {
+    let mut s = sink();
+    s.lines.clear();
+    s.threads.clear();
+    s.memos = None;
+    s.next_memo = 0;
+    ENABLED.store(true, Ordering::SeqCst);
+}
+
+/// Stop tracing (the buffer is kept until [`take`] or the next [`enable`]).
+pub fn disable() {
+    ENABLED.store(false, Ordering::SeqCst);
+}
+
+#[inline]
+pub fn is_enabled() -> bool {
+    ENABLED.load(Ordering::Relaxed)
+}
+
+/// Remove and return all lines recorded so far.
+pub fn take() -> Vec<String> {
+    std::mem::take(&mut sink().lines)
+}
+
+/// Copy of all lines recorded so far (used by the watchdog while threads may still be stuck).
+pub fn snapshot() -> Vec<String> {
+    sink().lines.clone()
+}
+
+/// Seeded schedule perturbation: with `seed != 0` every hook call (and every [`perturb`] call)
+/// yields / spins with some probability. Ignored under the `shuttle` feature. `0` turns it off.
+pub fn set_yield_seed(seed: u64) {
+    YIELD_STATE.store(seed, Ordering::SeqCst);
+}
+
+/// A perturbation point without a trace line; callable from harness query bodies.
+#[inline]
+pub fn perturb() {
+    #[cfg(not(feature = "shuttle"))]
+    {
+        if YIELD_STATE.load(Ordering::Relaxed) == 0 {
+            return;
+        }
+        let mut z = YIELD_STATE
+            .fetch_add(0x9E37_79B9_7F4A_7C15, Ordering::Relaxed)
+            .wrapping_add(0x9E37_79B9_7F4A_7C15);
+        z = (z ^ (z >> 30)).wrapping_mul(0xBF58_476D_1CE4_E5B9);
+        z = (z ^ (z >> 27)).wrapping_mul(0x94D0_49BB_1331_11EB);
+        z ^= z >> 31;
+        match z & 15 {
+            0..=3 => std::thread::yield_now(),
+            4 => {
+                for _ in 0..((z >> 8) & 0x3ff) {
+                    std::hint::spin_loop();
+                }
+            }
+            5 if (z >> 20) & 7 == 0 => std::thread::sleep(std::time::Duration::from_micros(50)),
+            _ => {}
+        }
+    }
+}
+
+/// The small integer of the calling thread (first-seen order since [`enable`]).
+pub fn thread_ordinal() -> usize {
+    let id = thread::current().id();
+    ordinal_of(&mut sink(), id)
+}
+
+fn ordinal_of(s: &mut Sink, id: ThreadId) -> usize {
+    if let Some(i) = s.threads.iter().position(|t| *t == id) {
+        return i;
+    }
+    s.threads.push(id);
+    s.threads.len() - 1
+}
+
+/// A harness-provided line: `note t<N> <text>`.
+pub fn note(text: &str) {
+    emit("note", format_args!("{text}"));
+}
+
+/// Fresh identity for a `ZalsaLocal` (a database handle).
+pub(crate) fn next_handle_id() -> u64 {
+    HANDLE_IDS.fetch_add(1, Ordering::Relaxed)
+}
+
+/// `<ingredient>:<index>` for a key.
+#[derive(Copy, Clone)]
+pub(crate) struct K(pub DatabaseKeyIndex);
+
+impl fmt::Display for K {
+    fn fmt(&self, f: &mut fmt::Formatter<'_>) -> fmt::Result {
+        write!(
+            f,
+            "{}:{}",
+            self.0.ingredient_index().as_u32(),
+            self.0.key_index().index()
+        )
+    }
+}
+
+/// Sort key of a database key: `(ingredient, index)`.
+pub(crate) fn key_ord(k: &DatabaseKeyIndex) -> (u32, u32) {
+    (k.ingredient_index().as_u32(), k.key_index().index())
+}
+
+/// Resolve thread ids to ordinals; the closure formats the body with the resolved mapping.
+pub(crate) struct Tids<'a>(&'a mut Sink);
+
+impl Tids<'_> {
+    pub(crate) fn t(&mut self, id: ThreadId) -> usize {
+        ordinal_of(self.0, id)
+    }
+}
+
+/// Append `<class> <op> t<me> <body>`; `body` gets access to the thread-ordinal map.
+pub(crate) fn emit_with(class: &str, op: &str, body: impl FnOnce(&mut Tids<'_>, &mut String)) {
+    if !is_enabled() {
+        return;
+    }
+    let me = thread::current().id();
+    {
+        let mut s = sink();
+        let me = ordinal_of(&mut s, me);
+        let mut line = String::with_capacity(96);
+        line.push_str(class);
+        if !op.is_empty() {
+            line.push(' ');
+            line.push_str(op);
+        }
+        line.push_str(" t");
+        line.push_str(&me.to_string());
+        let start = line.len();
+        line.push(' ');
+        body(&mut Tids(&mut s), &mut line);
+        if line.len() == start + 1 {
+            line.pop();
+        }
+        s.lines.push(line);
+    }
+    perturb();
+}
+
+/// Append `<class> t<me> <args>` (no thread ids inside `args`).
+pub(crate) fn emit(class: &str, args: fmt::Arguments<'_>) {
+    emit_with(class, "", |_, out| {
+        use fmt::Write;
+        let _ = out.write_fmt(args);
+    });
+}
+
+/// Memo allocation published at `addr`: returns its fresh ordinal.
+pub(crate) fn memo_published(addr: usize) -> u64 {
+    let mut s = sink();
+    let ord = s.next_memo;
+    s.next_memo += 1;
+    s.memos.get_or_insert_with(Default::default).insert(addr, ord);
+    ord
+}
+
+/// Ordinal of the live memo allocation at `addr` (`None`: published while tracing was off).
+pub(crate) fn memo_ordinal(addr: usize) -> Option<u64> {
+    sink().memos.as_ref()?.get(&addr).copied()
+}
+
+/// The allocation at `addr` is being freed.
+pub(crate) fn memo_freed(addr: usize) -> Option<u64> {
+    sink().memos.as_mut()?.remove(&addr)
+}
+
+pub(crate) struct OptOrd(pub Option<u64>);
+
+impl fmt::Display for OptOrd {
+    fn fmt(&self, f: &mut fmt::Formatter<'_>) -> fmt::Result {
+        match self.0 {
+            Some(o) => write!(f, "m{o}"),
+            None => f.write_str("m?"),
+        }
+    }
+}
